@@ -130,6 +130,10 @@ def classify_pop(ctx: Ctx, p: POp, state_params: Set[str]):
     if p.kind == "unpack" and isinstance(p.key, int):
         # `a, b = xs`: needs exactly len(xs) == 2; tracked when the length of xs can be worked out from how it is built
         b = _len_bounds(p.base, p.pc)
+        if p.base == EVENTS and (b is None or b[1] is None or b[1] > p.key):
+            # the window a decoder is handed holds one record or any number of them (START ... END, or every nested record a
+            # composite selected): unpacking it into a fixed number of names raises for the others
+            return ("unpack", f"the decoder's window, which holds any number of records (not always {p.key})")
         if b is not None and b != (p.key, p.key) and b[0] < p.key:
             return ("unpack", f"a sequence of {b[0]}..{b[1] if b[1] is not None else 'any number of'} items (built from "
                               f"{may_be_short_list(_short_source(p.base)) or 'a list that may be short'})")
@@ -343,7 +347,7 @@ def analyse_record(ctx: Ctx, run: Run, rec: sym.Record, module: str, root: str, 
             kind = {"lookup": "raises KeyError when the key was never announced",
                     "index": "raises IndexError when the list is shorter",
                     "index-param": "raises IndexError when the list has no element at that position",
-                    "unpack": "raises ValueError (not enough values to unpack) when it holds fewer",
+                    "unpack": "raises ValueError (not enough / too many values to unpack) when it holds another number",
                     "optional": "raises AttributeError/TypeError when the value is None"}[cls]
             what = f"{expr} ({desc}) is evaluated when [{cond}] without a guard that covers it: {kind}"
         run.ob("R1", module_of(p.func), scope, construct, ok, what,
